@@ -5,6 +5,7 @@ CONSTANTS
   GraphIdempotent = TRUE
   CacheTransparent = TRUE
   SerialsMemoised = TRUE
+  ScopeFixed = TRUE
 INVARIANTS C19_FlatStable C19_GraphStable C19_SerialsStable C19_DerivedStable
 PROPERTIES C19_SerialsNeverChange
 CHECK_DEADLOCK FALSE
